@@ -374,7 +374,10 @@ def substitution_case(ctx, program, o, did, tag):
     inners = {"none": contextlib.nullcontext, "cache.disabled": labrea.cache.disabled, "logging.disabled": labrea.logging.disabled,
               "mapping-form": lambda: rt.handle({LogRequest: cur.handlers[LogRequest]}), "pair-form": lambda: rt.handle(LogRequest, cur.handlers[LogRequest])}
     inner_name = sorted(inners)[int(spec_hash([program, o, did]), 16) % len(inners)]
-    with rt.handle(EvaluateRequest, handler):
+    from ..tap import Recorder
+
+    # (every other substitution is installed as a callable OBJECT that is an empty container, i.e. falsy)
+    with rt.handle(EvaluateRequest, Recorder(handler) if int(spec_hash([did, o]), 16) % 2 else handler):
         with inners[inner_name]():
             got = observe(G.root.evaluate, copy.deepcopy(o))
     ctx.cover("substitution_inner_blocks", inner_name)
